@@ -4,6 +4,7 @@
 
 mod ast_walk_gen;
 mod hist_obs;
+mod ide_query;
 mod memfs;
 mod parse_obs;
 mod pool;
@@ -30,6 +31,7 @@ fn handle(item: &Value) -> Value {
         "pp" => pp_obs::pp_item(item),
         "wshist" => hist_obs::hist_item(item),
         "vocab" => vocab_obs::vocab_item(item),
+        "idequery" => ide_query::idequery_item(item),
         other => json!({"id": item.get("id"), "outcome": "ToolError", "msg": format!("unknown kind {other}")}),
     }
 }
